@@ -423,38 +423,48 @@ def gen_api(tier, rng):
 # ------------------------------------------------------------------ known finding K1 (totals beyond int64)
 
 ENTRY_DUR = re.compile(rb"^(?:    |   |  |\t)([-+]?)(?:(\d+)h)?(?:(\d+)m)?(?:[ \t].*)?$")
-ENTRY_RANGE = re.compile(rb"^(?:    |   |  |\t)(<?)(\d{1,2}):(\d{2})(>?) ?- ?(<?)(\d{1,2}):(\d{2})(>?)(?:[ \t].*)?$")
+TIME_B = rb"(<?)(\d{1,2}):(\d{2})(am|pm)?(>?)"
+ENTRY_RANGE = re.compile(rb"^(?:    |   |  |\t)" + TIME_B + rb" *- *" + TIME_B + rb"(?:[ \t].*)?$")
 SHOULD = re.compile(rb"^\S+\s+\(\s*([-+]?)(?:(\d+)h)?(?:(\d+)m)?!\s*\)")
 
+def _offset(lt, h, mi, ap, gt):
+    h = int(h)
+    if ap: h = h % 12 + (12 if ap == b"pm" else 0)
+    return h * 60 + int(mi) + (-1440 if lt else 1440 if gt else 0)
+
+def total_overflows(text):
+    """some record's running total, or its total minus its should-total, leaves safemath's range"""
+    lim = I64
+    for block in re.split(rb"\n[ \t]*(?:\n[ \t]*)+", text.replace(b"\r\n", b"\n")):
+        ls = block.split(b"\n")
+        should = 0
+        m = SHOULD.match(ls[0]) if ls else None
+        if m and (m.group(2) or m.group(3)):
+            should = (int(m.group(2) or 0) * 60 + int(m.group(3) or 0)) * (-1 if m.group(1) == b"-" else 1)
+        acc = 0
+        for l in ls[1:]:
+            m = ENTRY_DUR.match(l)
+            v = None
+            if m and (m.group(2) or m.group(3)):
+                v = (int(m.group(2) or 0) * 60 + int(m.group(3) or 0)) * (-1 if m.group(1) == b"-" else 1)
+            else:
+                g = ENTRY_RANGE.match(l)
+                if g: v = _offset(*g.groups()[5:10]) - _offset(*g.groups()[0:5])
+            if v is None: continue
+            if abs(acc + v) > lim: return True
+            acc += v
+        if abs(acc - should) > lim: return True
+    return False
+
 def k1_json_total_overflow(req, out):
-    """`klog json` panicked AND some record's running total (or total minus should-total) leaves safemath's range"""
+    """klog panicked (`klog json`, or `klog print` checking for warnings) AND some record's running total
+       (or total minus should-total) leaves safemath's range"""
     if out != "crash": return False
     a = req.split(" ")
-    texts = [unhx(a[i]) for i in range(3, len(a), 2)]
-    lim = I64
-    for t in texts:
-        for block in re.split(rb"\n[ \t]*(?:\n[ \t]*)+", t.replace(b"\r\n", b"\n")):
-            ls = block.split(b"\n")
-            should = 0
-            m = SHOULD.match(ls[0]) if ls else None
-            if m and (m.group(2) or m.group(3)):
-                should = (int(m.group(2) or 0) * 60 + int(m.group(3) or 0)) * (-1 if m.group(1) == b"-" else 1)
-            acc = 0
-            for l in ls[1:]:
-                m = ENTRY_DUR.match(l)
-                v = None
-                if m and (m.group(2) or m.group(3)):
-                    v = (int(m.group(2) or 0) * 60 + int(m.group(3) or 0)) * (-1 if m.group(1) == b"-" else 1)
-                else:
-                    g = ENTRY_RANGE.match(l)
-                    if g:
-                        off = lambda lt, h, mi, gt: int(h) * 60 + int(mi) + (-1440 if lt else 1440 if gt else 0)
-                        v = off(*g.groups()[4:8]) - off(*g.groups()[0:4])
-                if v is None: continue
-                if abs(acc + v) > lim: return True
-                acc += v
-            if abs(acc - should) > lim: return True
-    return False
+    if a[0] == "jsonout-terminal": texts = [unhx(a[2])]
+    elif a[0] in ("jsonout-run", "jsonout-api", "jsonout-multi"): texts = [unhx(a[i]) for i in range(3, len(a), 2)]
+    else: return False
+    return any(total_overflows(t) for t in texts)
 
 # ------------------------------------------------------------------ terminal report
 
